@@ -489,3 +489,89 @@
             assert(s4.subs(k, c) == s2.subs(k, c));
         }
     }
+@@ ConfigActor::get_config_info_by_keys spec
+    // C09: a read by keys answers exactly the stored rows of the named keys, in the order asked, with the stored content and its md5
+    ensures r.1@ == rows_by_keys(self.cache@, keys@), r.0 == r.1@.len(),
+@@ ConfigActor::get_config_info_by_keys foriter 1 it
+@@ ConfigActor::get_config_info_by_keys entry
+    broadcast use vstd::std_specs::hash::group_hash_axioms;
+    broadcast use axiom_config_key_model;
+    broadcast use group_std_extra;
+@@ ConfigActor::get_config_info_by_keys loop 1
+    invariant
+        it.seq().unref() == keys@,
+        info_list@ == rows_by_keys(self.cache@, keys@.take(it.index@)),
+@@ ConfigActor::get_config_info_by_keys loop 1 body_entry
+    broadcast use vstd::std_specs::hash::group_hash_axioms;
+    broadcast use axiom_config_key_model;
+    broadcast use group_std_extra;
+    let ghost idx = it.index@;
+    let ghost il0 = info_list@;
+    proof { assert(keys@.take(idx + 1).drop_last() =~= keys@.take(idx)); }
+@@ ConfigActor::get_config_info_by_keys before_tail
+    proof { assert(keys@.take(keys@.len() as int) =~= keys@); }
+@@ ConfigActor::get_config_info_by_keys loop 1 body_exit
+    proof {
+        assert(keys@.take(idx + 1).last() == keys@[idx]);
+        assert(key == keys@[idx]);
+        if self.cache@.contains_key(key) {
+            assert(info_list@.len() == il0.len() + 1);
+            assert(info_list@.last().content == Some(self.cache@[key].content));
+            assert(info_list@.last().tenant == key.tenant);
+            assert(info_list@.last().desc == self.cache@[key].desc);
+            assert(info_list@.last() == row_of(self.cache@, key));
+        } else { assert(info_list@ == il0); }
+        assert(info_list@ =~= rows_by_keys(self.cache@, keys@.take(idx + 1)));
+    }
+@@ ConfigActor::get_config_info_page t8 1
+@@ ConfigActor::get_config_info_page foriter 1 it
+@@ ConfigActor::get_config_info_page spec
+    requires self.wf()
+    // C09: a listing shows the total of THE canonical result list and, for its window [offset, offset+limit), one row per key, in that order,
+    // each row carrying the key and the STORED description / content / md5 of that key (content and md5 only when asked for)
+    // (a window whose end offset + limit overflows usize is not decided: the index computes `offset + limit`)
+    ensures param.offset + param.limit <= usize::MAX ==> {
+        &&& r.0 == self.tenant_index.result_list(*param).len()
+        &&& r.1@ == list_rows(self.cache@, page(self.tenant_index.result_list(*param), param.offset as int, param.limit as int), param.query_context)
+        &&& r.1@.len() == page(self.tenant_index.result_list(*param), param.offset as int, param.limit as int).len()
+    }
+@@ ConfigActor::get_config_info_page entry
+    broadcast use vstd::std_specs::hash::group_hash_axioms;
+    broadcast use axiom_config_key_model;
+    broadcast use group_std_extra;
+    let ghost rl = self.tenant_index.result_list(*param);
+    let ghost pg = page(rl, param.offset as int, param.limit as int);
+    let ghost ok = param.offset + param.limit <= usize::MAX;
+    let ghost wc = param.query_context;
+@@ ConfigActor::get_config_info_page loop 1
+    invariant
+        it.seq().unref() == list@, ok ==> list@ == pg, wc == param.query_context,
+        info_list@ == list_rows(self.cache@, list@.take(it.index@), wc),
+@@ ConfigActor::get_config_info_page loop 1 body_entry
+    broadcast use vstd::std_specs::hash::group_hash_axioms;
+    broadcast use axiom_config_key_model;
+    broadcast use group_std_extra;
+    let ghost idx = it.index@;
+    let ghost il0 = info_list@;
+    proof { assert(list@.take(idx + 1).drop_last() =~= list@.take(idx)); }
+@@ ConfigActor::get_config_info_page loop 1 body_exit
+    proof {
+        assert(list@.take(idx + 1).last() == list@[idx]);
+        assert(*item == list@[idx]);
+        if self.cache@.contains_key(*item) {
+            assert(info_list@.last() == list_row(self.cache@, *item, wc));
+        } else { assert(info_list@ == il0); }
+        assert(info_list@ =~= list_rows(self.cache@, list@.take(idx + 1), wc));
+    }
+@@ ConfigActor::get_config_info_page before_tail
+    proof {
+        assert(list@.take(list@.len() as int) =~= list@);
+        if ok {
+            assert forall|i: int| 0 <= i < pg.len() implies self.cache@.contains_key(#[trigger] pg[i]) by {
+                let j = imin(param.offset as int, rl.len() as int) + i;
+                assert(pg[i] == rl[j]);
+                assert(self.tenant_index@.contains(rl[j]));
+            }
+            lemma_list_rows_all(self.cache@, pg, wc);
+        }
+    }
